@@ -122,6 +122,7 @@ namespace Givaro {
 			this->_characteristic = F._characteristic;
 			this->_dcharacteristic = F._dcharacteristic;
 			this->_exponent = F._exponent;
+			this->_irred = F._irred;
 			this->_q = F._q;
 			this->_qm1 = F._qm1;
 			this->_log2pol = F._log2pol;
@@ -132,6 +133,8 @@ namespace Givaro {
 			this->_MASK = F._MASK;
 			this->_maxn = F._maxn;
 			this->_degree = F._degree;
+			this->_pceil = F._pceil;
+			this->_MODOUT = F._MODOUT;
 			this->_log2dbl = F._log2dbl;
 			this->_low2log = F._low2log;
 			this->_high2log = F._high2log;
